@@ -16,7 +16,11 @@ vars == <<row, out>>
 
 Absent == "absent"
 B64Vals == {Absent, "true", "false"}
-CritVals == {<<Absent>>, <<>>, <<"b64">>, <<"b64", "b64">>, <<"alg">>, <<"exp">>, <<"x-unknown">>}
+CritVals == {<<Absent>>, <<>>, <<"b64">>, <<"b64", "b64">>, <<"alg">>, <<"exp">>, <<"x-unknown">>,
+             \* several names: every one of them has to pass every rule
+             <<"b64", "exp">>, <<"exp", "b64">>, <<"b64", "x-unknown">>, <<"b64", "alg">>}
+\* a registered parameter (other than kid, which has its own flag) that is present in BOTH headers
+SharedNames == {"none", "nonce", "url", "typ", "cty", "x5t#S256", "jku"}
 Registered == {"alg", "jku", "jwk", "kid", "x5u", "x5c", "x5t", "x5t#S256", "typ", "cty", "crit"}
 Implemented == {"b64"}
 
@@ -30,8 +34,9 @@ Names(h) == (IF h.alg THEN {"alg"} ELSE {}) \cup (IF h.b64 # Absent THEN {"b64"}
             \cup (IF h.kid THEN {"kid"} ELSE {}) \cup (IF h.xc THEN {"x-c"} ELSE {}) \cup (IF h.exp THEN {"exp"} ELSE {})
 CritNames(h) == IF HasCrit(h) THEN {h.crit[i] : i \in 1..Len(h.crit)} ELSE {}
 
-Violations(p, u) ==
-     (IF HasCrit(u) THEN {"R1_crit_outside_protected"} ELSE {})
+Violations(p, u, shared) ==
+     (IF shared # "none" THEN {"R8_not_disjoint"} ELSE {})
+  \cup (IF HasCrit(u) THEN {"R1_crit_outside_protected"} ELSE {})
   \cup (IF p.crit = <<>> \/ u.crit = <<>> THEN {"R2_crit_empty"} ELSE {})
   \cup (IF CritNames(p) \cap Registered # {} THEN {"R3_crit_names_registered"} ELSE {})
   \cup (IF (CritNames(p) \ Registered) \ Implemented # {} THEN {"R4_crit_names_unimplemented"} ELSE {})
@@ -43,12 +48,15 @@ Violations(p, u) ==
 
 EffectiveB64(p) == p.b64 # "false"          \* default true
 
-Rows == {r \in [kind : {"headers"}, p : Header, u : Header] : WellFormed(r.p) /\ WellFormed(r.u)
+Rows == {r \in [kind : {"headers"}, p : Header, u : Header, shared : SharedNames] : WellFormed(r.p) /\ WellFormed(r.u)
+            \* a shared registered name is explored on the slice of header pairs that are otherwise plain
+            /\ (r.shared # "none" => (r.p.present /\ r.u.present /\ r.p.crit \in {<<Absent>>, <<"b64">>} /\ r.u.crit = <<Absent>>
+                                       /\ ~r.p.xc /\ ~r.u.xc /\ ~r.p.exp /\ r.u.b64 = Absent))
             \* the unprotected header only needs the shapes that matter: any crit is already a violation
             /\ r.u.crit \in {<<Absent>>, <<"b64">>, <<>>} /\ ~r.u.exp}
 
 Evaluate(r) ==
-  LET v == Violations(r.p, r.u) IN
+  LET v == Violations(r.p, r.u, r.shared) IN
   [violations |-> v, accept |-> v = {},
    \* verification additionally needs an algorithm in the integrity-protected header (R10)
    verify |-> v = {} /\ r.p.alg,
@@ -64,7 +72,7 @@ AcceptedShape ==
     /\ ~HasCrit(row.u) /\ row.u.b64 = Absent
     /\ (HasCrit(row.p) => (CritNames(row.p) = {"b64"} /\ row.p.b64 # Absent))
     /\ (row.p.b64 # Absent => HasCrit(row.p))
-    /\ ~(row.p.alg /\ row.u.alg)
+    /\ ~(row.p.alg /\ row.u.alg) /\ row.shared = "none"
 
 RECURSIVE SetToSeq(_)
 SetToSeq(S) == IF S = {} THEN <<>> ELSE LET x == CHOOSE x \in S : TRUE IN <<x>> \o SetToSeq(S \ {x})
